@@ -355,6 +355,14 @@ def mk_rop(letter, rng, nt, bo, atom):
         return dict(op='append', items=[nd_spec(small_values(rng, bad, dtype_str(nt, bo)))])
     if letter == 'asw':
         return dict(op='append', items=[item_spec(rng, nt, bo, atom, 2, 'swapped')])
+    if letter == 'afill0':   # the total number of value rows becomes EXACTLY the largest index the index type holds
+        return dict(op='iterappend', items=[dict(kind='fillto', delta=0), item_spec(rng, nt, bo, atom, 0, 'nd')])
+    if letter == 'afill1':   # ... one more than that: the end index does not fit, the subarray is refused
+        return dict(op='iterappend', items=[dict(kind='fillto', delta=1), item_spec(rng, nt, bo, atom, 1, 'nd')])
+    if letter == 'aatom':    # ONE atom without the leading axis: its rank is one too low, it is not a subarray
+        if not t:
+            return dict(op='append', items=[dict(kind='scalar', value=3)])
+        return dict(op='append', items=[nd_spec(rand_array(rng, nt, bo, t))])
     if letter == 'aovf':     # a LIST holding a number NumPy refuses to convert to the array's type
         dk = np.dtype(nt).kind
         if dk in 'iu':
@@ -413,9 +421,9 @@ def mk_rop(letter, rng, nt, bo, atom):
     raise ValueError(letter)
 
 
-RALPHABET = ['a0', 'a1', 'a3', 'al', 'aod', 'asw', 'astr', 'aovf', 'amask', 'abig', 'abad', 'it0', 'it2', 'itbad', 't-1', 't0', 't1', 't2',
+RALPHABET = ['a0', 'a1', 'a3', 'al', 'aod', 'asw', 'astr', 'aovf', 'aatom', 'afill0', 'afill1', 'amask', 'abig', 'abad', 'it0', 'it2', 'itbad', 't-1', 't0', 't1', 't2',
              'tbig', 't-big', 'tni', 'ro', 'mr', 'mrw', 'ms', 'mc']
-RCOMPACT = ['a0', 'a1', 'a3', 'aod', 'asw', 'astr', 'aovf', 'it2', 't-1', 't-big', 't0', 't1', 'ro', 'mr', 'abad']
+RCOMPACT = ['a0', 'a1', 'a3', 'aod', 'asw', 'astr', 'aovf', 'aatom', 'it2', 't-1', 't-big', 't0', 't1', 'ro', 'mr', 'abad']
 
 
 def rhistory_case(rng, nt, bo, atom, indextype, sublens, letters, mode='r+', metadata=None):
@@ -442,6 +450,16 @@ def trailing_empty_cases(rng):
             nt = NUMTYPES[(3 * k + j) % 13]
             out.append(rhistory_case(rng, nt, ('little', 'big')[(k + j) % 2], atom, INDEXTYPES[(k + 2 * j) % len(INDEXTYPES)],
                                      sl, letters))
+    return out
+
+
+def index_limit_cases(rng):
+    """appends that end exactly at / one beyond the largest value of a narrow index type"""
+    out = []
+    for k, (ity, atom) in enumerate([('int8', ()), ('uint8', (2,)), ('int8', (2, 1)), ('uint8', ())]):
+        for j, letters in enumerate((['afill0', 'a0', 'a1', 'ro'], ['afill1', 'ro'], ['a3', 'afill1', 'afill0', 't-1', 'afill0'])):
+            nt = NUMTYPES[(5 * k + j) % 13]
+            out.append(rhistory_case(rng, nt, ('little', 'big')[(k + j) % 2], atom, ity, [2, 0, 1], letters))
     return out
 
 
